@@ -404,7 +404,8 @@ def shipped_grammars():
         conds = mod("geml.grammars.coding.conditions")
         lo = mod("geml.grammars.coding.logical_ops")
         cf = mod("geml.grammars.coding.control_flow")
-        cs = concrete_classes(nums) + concrete_classes(conds) + concrete_classes(lo) + concrete_classes(cf) + concrete_classes(cls)
+        ls = mod("geml.grammars.coding.lists")
+        cs = concrete_classes(nums) + concrete_classes(conds) + concrete_classes(lo) + concrete_classes(cf) + concrete_classes(cls) + concrete_classes(ls)
         for st_name in ("Statement", "Number", "Condition"):
             if hasattr(cls, st_name):
                 out.append((f"geml.coding/{st_name}", cs, getattr(cls, st_name)))
